@@ -106,8 +106,15 @@ Record wf_ver (v : vrel) : Prop := {
   wv_lead : headok (v_num v ++ [ch 41]);
   wv_trail : rev (eat_ws (rev (v_num v))) = v_num v }.
 
-Lemma parse_operator_op o rest : In o ops -> parse_operator (o ++ rest) = Ok (o, rest).
-Proof. intros [<-|[<-|[<-|[<-|[<-|[]]]]]]; reflexivity. Qed.
+(* what follows an operator does not turn "=" into "==", "=<" or "=>" *)
+Definition opnext (rest : str) : bool := negb (eqc (peek rest) 61 || eqc (peek rest) 60 || eqc (peek rest) 62).
+Lemma parse_operator_op o rest : In o ops -> opnext rest = true -> parse_operator (o ++ rest) = Ok (o, rest).
+Proof.
+  intros H N. unfold opnext in N. apply negb_true_iff in N.
+  destruct H as [<-|[<-|[<-|[<-|[<-|[]]]]]]; try reflexivity.
+  unfold parse_operator. cbn [s list_ascii_of_string app eat_ws]. change (is_ws "="%char) with false. cbv iota.
+  cbn [peek adv tl]. change (eqc "="%char 61) with true. cbv iota. now rewrite N.
+Qed.
 Lemma op_headok o rest : In o ops -> headok (o ++ rest).
 Proof. intros [<-|[<-|[<-|[<-|[<-|[]]]]]]; reflexivity. Qed.
 
@@ -119,7 +126,7 @@ Lemma parse_version_render v rest : wf_ver v -> parse_version (ver_text v ++ res
 Proof.
   intros [Hop Hnum Hlead Htrail]. unfold ver_text, parse_version.
   cbn [app eat_ws]. change (is_ws (ch 40)) with false. cbv iota. cbn [adv tl].
-  rewrite <- !app_assoc. cbn [app]. rewrite (parse_operator_op (v_op v) _ Hop). cbv iota beta.
+  rewrite <- !app_assoc. cbn [app]. match goal with |- context [parse_operator (v_op v ++ ?r)] => rewrite (parse_operator_op (v_op v) r Hop eq_refl) end. cbv iota beta.
   rewrite eat_ws_sp.
   assert (HL : headok (v_num v ++ ch 41 :: rest)).
   { unfold headok in *. destruct (v_num v); cbn in *; exact Hlead. }
